@@ -23,7 +23,8 @@ Features == {"desc-type", "desc-field", "desc-arg", "desc-enum-value", "dep-fiel
              "input-default-int", "input-default-string", "input-default-enum", "input-default-list", "input-default-object",
              "wrap-list", "wrap-nn-list-nn", "wrap-list-list", "wrap-deep", "arg-wrap-deep",
              "custom-scalar", "directive-noargs", "directive-args", "directive-arg-default", "directive-many-locations",
-             "root-names", "interface", "interface-chain", "union", "mutation", "subscription", "enum", "input-nested"}
+             "root-names", "interface", "interface-chain", "union", "mutation", "subscription", "enum", "input-nested",
+             "interface-implements", "arg-default-string-list", "root-sub-name"}
 
 Cases == {{}} \cup {{a, b} : a \in Features, b \in Features}     \* all sets of at most two features
 
@@ -74,10 +75,14 @@ SchemaDiff(a, b) ==
 IntroOK(e) == /\ e.ok
               /\ SchemaDiff(e.orig, e.rebuilt) = ""
               /\ e.typeAgrees                                            \* __type(name:) = entry of __schema.types
+              /\ e.aliasAgrees                                           \* the same document with every field aliased: same answer
+              /\ e.concurrentAgrees                                      \* operations of one batch are answered as if alone
               /\ \A i \in DOMAIN e.probes : e.probes[i].reported = e.probes[i].validates
 IntroWhy(e) == IF ~e.ok THEN "not-reconstructed"
                ELSE IF SchemaDiff(e.orig, e.rebuilt) # "" THEN SchemaDiff(e.orig, e.rebuilt)
                ELSE IF ~e.typeAgrees THEN "type-by-name-disagrees-with-schema-types"
+               ELSE IF ~e.aliasAgrees THEN "aliased-introspection-answers-differently"
+               ELSE IF ~e.concurrentAgrees THEN "introspection-in-a-batch-answers-differently-than-alone"
                ELSE "reported-but-not-enforced-or-vice-versa"
 
 (* ---------------------------------------------------------------- enumeration / trace *)
